@@ -1,4 +1,5 @@
 import Knut.Proofs.MTMFlows
+import Knut.Proofs.MTMFlowCells
 import Knut.Proofs.MTMEmpty
 import Knut.Properties.C03
 import Knut.Properties.C03Report
@@ -12,7 +13,12 @@ import Knut.Properties.C03Report
 * **gain account** – `C03_gain_mirrors_adjustments`: among the transactions handed to the Query stage (each posting of
   which becomes exactly one report insert of the same account, commodity and value in a plain valued report:
   `C03_inserts_are_postings`), the zero-quantity postings on `Income:<path of a>` against `a` total
-  `−(value on (a, c) − Σ booked values on (a, c))`, exactly; `C03_value_is_booked_plus_adjustments` is the split used.
+  `−(value on (a, c) − Σ booked values on (a, c))`, exactly; `C03_value_is_booked_plus_adjustments` is the split used;
+* **flows at booking-day prices** – `C03_flow_window_noclose` (pipeline) and `C03_command_flow_cell_noclose_partial`
+  (cells): without closing, the row of an account that is neither asset/liability nor below `Income` shows, in the column
+  of the period end `D`, exactly `−Spec.flowAt V days b (window start − 1) D`, the sum of its bookings inside the window
+  up to `D`, each valued by `Spec.bookingValue` at the normalised prices of ITS OWN day.  Open: the same with `--close`
+  (the valued closing transfers) and for accounts below `Income` at cell level (they also carry the mirrored adjustments).
 -/
 namespace Knut.C03
 open Knut Knut.Dec Knut.MTM Knut.LedgerCommand
@@ -129,6 +135,98 @@ theorem C03_gain_account_path (a : Account) (c : Commodity) (p : Posting) (h : i
   obtain ⟨⟨⟨h1, h2⟩, h3⟩, h4⟩ := h
   exact ⟨by rw [h1]; rfl, h2, h3, h4⟩
 
+
+/-! ### income, expense and equity bookings are valued at the price of their booking day -/
+
+/-- **pipeline level, closing off**: for an account that is neither asset/liability nor below `Income` (no value
+adjustment is ever booked on it), the inserts aligned to column dates `≤ D` total exactly `Spec.flowAt`: the journal's
+bookings on the account dated inside the window up to `D`, each valued `Truncate₈(quantity × normalised price of the
+declarations up to ITS OWN day)` (the quantity itself in `V`) -/
+theorem C03_flow_window_noclose (cfg : BalCfg) (v : Commodity) (b : Account) (days : List Day) (stF : BalState) (D : Int)
+    (hv : cfg.valuation = some v) (hcl : cfg.close = false) (hpl : Plain cfg)
+    (hb1 : b.isAL = false) (hb2 : b.segments.head? ≠ some "Income") (hs : Sorted days)
+    (hcons : ∀ d ∈ days, ∀ t ∈ d.transactions, t.date = d.date)
+    (hz : ∀ d ∈ days, ∀ t ∈ d.transactions, ∀ p ∈ t.postings, p.value = 0)
+    (hinc : List.Pairwise (· < ·) (cfg.periods.map (·.stop))) (hD : D ∈ cfg.periods.map (·.stop))
+    (hDin : cfg.span.contains D = true)
+    (h : Balance.run cfg days = .ok stF) :
+    ∃ fl, Spec.flowAt v days b (cfg.span.start - 1) D = some fl ∧ accCum b stF.entries D = fl :=
+  run_flow_window cfg v b days stF D hv hcl hpl hb1 hb2 hs hcons hz hinc hD hDin h
+
+open Knut.Table (Cell) in
+/-- **the cells of an expense/equity row, `--close=false`**: in a cumulative valued report with per-account rows the
+row of an account `b` that is neither asset/liability nor below `Income` shows, in the column of the period end `D`,
+exactly `−Spec.flowAt V days b (window start − 1) D` (the income/expense/equity section flips the sign): every booking
+valued at the price of its own day, no revaluation afterwards.  Partial with respect to the property's sentence in two
+directions, both stated: closing must be off (with `--close` the period-start transfers to `Equity:Equity` are added;
+the valued closing sums are not mechanised), and accounts below `Income` additionally carry the mirrored adjustments
+(`C03_gain_mirrors_adjustments`). -/
+theorem C03_command_flow_cell_noclose_partial (f : BalanceFlags) (v : Commodity) (hf : PlainFlags f v)
+    (hcl : f.close = false) (ds : List Directive)
+    (hz : ∀ t, Directive.tx t ∈ ds → ∀ p ∈ t.postings, p.value = 0)
+    (es : List Entry) (part : Partition) (h : BalanceCmd.entries f ds = .ok (es, part))
+    (b : Account) (hb1 : b.isAL = false) (hb2 : b.segments.head? ≠ some "Income") (hb3 : b.segments ≠ [])
+    (hmem : ∃ e ∈ es, e.account = b) :
+    ∃ pre post cells,
+      (BalanceReport.table (BalanceCmd.renderCfg f part) es).rows =
+        pre ++ [Cell.text (b.segments.getLast?.getD "").toList .left ((2 * (b.segments.length - 1) : Nat) : Int) :: cells] ++ post ∧
+      cells.length = part.endDates.length ∧
+      ∀ (k : Nat) (hk : k < part.endDates.length) (hk' : k < cells.length),
+        ∃ fl, Spec.flowAt v (Builder.ofList ds).build b (part.span.start - 1) part.endDates[k] = some fl ∧
+          cellVal cells[k] = -fl := by
+  obtain ⟨hpart, st, hrun, rfl⟩ := entries_ok h
+  obtain ⟨e, he, rfl⟩ := hmem
+  have hcv : (cfgOf f part).valuation = some v := hf.valuation
+  have hccl : (cfgOf f part).close = false := hcl
+  have hpl := plain_cfgOf hf part
+  have hne := window_nonempty_noclose (cfgOf f part) hccl _ st hrun (by intro h0; rw [h0] at he; cases he)
+  have hspan := Performance.newPartition_span hpart
+  obtain ⟨hinc, hin⟩ := Performance.endDates_increasing hpart
+  have hne' : (BalanceCmd.window f (Builder.ofList ds)).start ≤ (BalanceCmd.window f (Builder.ofList ds)).stop := by
+    rw [← hspan]; exact hne
+  generalize hrc : BalanceCmd.renderCfg f part = rc
+  have hrv : rc.valuation.isSome = true := by rw [← hrc]; unfold BalanceCmd.renderCfg; rw [hf.valuation]; rfl
+  have hrs : ∀ s, rc.showCommodities s = false := by
+    intro s; rw [← hrc]; unfold BalanceCmd.renderCfg; rw [hf.show_]; rfl
+  have hrd : rc.diff = false := by rw [← hrc]; exact hf.diff
+  have hre : rc.endDates = part.endDates := by rw [← hrc]; rfl
+  have hdc : (rc.valuation.isNone || rc.hasShowCommodities) = false := by
+    rw [← hrc]; unfold BalanceCmd.renderCfg; rw [hf.valuation, hf.show_]; rfl
+  obtain ⟨pre, post, hrows⟩ := table_has_row_eie rc st.entries e he hb1 hb3
+  rw [hdc] at hrows
+  obtain ⟨cells, hnode, hlen, hcell⟩ := nodeRows_valued rc hrv hrs hrd (st.entries.filter (fun e => !e.account.isAL)) true
+    e.account.segments (2 * (e.account.segments.length - 1))
+  rw [hnode] at hrows
+  refine ⟨pre, post, cells, hrows, by rw [hlen, hre], ?_⟩
+  intro k hk hk'
+  have hDmem : part.endDates[k] ∈ part.endDates := List.getElem_mem hk
+  have hDin : (cfgOf f part).span.contains part.endDates[k] = true := by
+    have := hin hne' _ hDmem
+    show part.span.contains _ = true
+    rw [hspan]; exact this
+  obtain ⟨fl, h1, h2⟩ := C03_flow_window_noclose (cfgOf f part) v e.account (daysOf f ds part) st part.endDates[k]
+    hcv hccl hpl hb1 hb2 (daysOf_sorted f ds part) (daysOf_consistent f ds part) (daysOf_zero f ds part hz) hinc hDmem hDin hrun
+  rw [flowAt_daysOf] at h1
+  refine ⟨fl, h1, ?_⟩
+  have hcv' := hcell k hk'
+  simp only [if_true] at hcv'
+  have hvs : (cfgOf f part).valuation.isSome = true := by rw [hcv]; rfl
+  have hdates : ∀ x ∈ st.entries.filter (fun e => !e.account.isAL), x.account = e.account →
+      ∀ D', x.date = some D' → D' ∈ rc.endDates := by
+    intro x hx _ D' hd
+    obtain ⟨txs, _, hes⟩ := run_pipelineRun (cfgOf f part) _ st hrun
+    have hx' := (List.mem_filter.mp hx).1
+    rw [hes] at hx'
+    obtain ⟨t, _, p, _, rfl⟩ := mem_entries_plain (cfgOf f part) hpl hvs txs x hx'
+    rw [hre]
+    exact alignIn_mem part.periods t.date D' hd
+  have hk2 : k < rc.endDates.length := by rw [hre]; exact hk
+  have hcum := cum_eq_accCum e.account (st.entries.filter (fun e => !e.account.isAL)) rc.endDates
+    (by rw [hre]; exact hinc) hdates k hk2
+  rw [hcv', hcum, accCum_eie e.account hb1]
+  have : rc.endDates[k] = part.endDates[k] := by simp only [hre]
+  rw [this, h2]
+
 /-! ### Non-vacuity -/
 
 /-- the journal of `C03Report` without the price declaration of day 2: USD is bought on a day on or before which no USD
@@ -153,5 +251,62 @@ example : (match pipelineRun exCfgW {} exDays with
     | .error _ => false) = true := by decide +kernel
 
 example : (valuationAccountFor exA).name = "Income:A" := by decide +kernel
+
+/-- an expense of 1 USD booked on day 2 at 0.5 CHF stays at 0.5 CHF in the column of day 3 although USD is priced
+1.33333333 on day 3 (`--close=false`; the section shows it with flipped sign) -/
+def exX : Account := ⟨["Expenses", "X"]⟩
+def exDirsX : List Directive :=
+  [.opening ⟨1, exA⟩, .opening ⟨1, exE⟩, .opening ⟨1, exX⟩,
+   .tx (Transaction.ofBookings 1 "cash" none [⟨exE, exA, 100, "CHF"⟩]),
+   .price ⟨2, "USD", 1/2, "CHF"⟩,
+   .tx (Transaction.ofBookings 2 "buy" none [⟨exE, exA, 1, "USD"⟩]),
+   .tx (Transaction.ofBookings 2 "fee" none [⟨exA, exX, 1, "USD"⟩]),
+   .price ⟨3, "USD", 1333333333/1000000000, "CHF"⟩]
+def exFlagsX : BalanceFlags := { valuation := some "CHF", to := 4, close := false }
+
+example : PlainFlags exFlagsX "CHF" ∧ exFlagsX.close = false ∧ exX.isAL = false ∧ exX.segments.head? ≠ some "Income" :=
+  ⟨⟨rfl, rfl, rfl, rfl, fun _ => rfl, fun _ => rfl, fun _ => rfl⟩, rfl, by decide, by decide⟩
+
+theorem exDirsX_zero : ∀ t, Directive.tx t ∈ exDirsX → ∀ p ∈ t.postings, p.value = 0 := by
+  intro t ht
+  simp only [exDirsX, List.mem_cons, List.not_mem_nil, or_false, reduceCtorEq, false_or, Directive.tx.injEq] at ht
+  rcases ht with rfl | rfl | rfl <;> exact ofBookings_zero _ _ _ _
+
+example : Spec.flowAt "CHF" (Builder.ofList exDirsX).build exX 0 3 = some (1/2) := by decide +kernel
+
+/-- the command produces the report (one column, period end day 3, window start day 1, an insert on `Expenses:X`), so
+`C03_command_flow_cell_noclose_partial` applies: the row of `X` exists and its cell shows −0.5.  (The table itself is not
+evaluated here: the kernel cannot unfold `List.mergeSort` on the two top-level accounts of the second section.) -/
+example : ∃ es part, BalanceCmd.entries exFlagsX exDirsX = .ok (es, part) ∧ part.endDates = [3] ∧ part.span.start = 1 ∧
+    ∃ e ∈ es, e.account = exX := by
+  have h : (match BalanceCmd.entries exFlagsX exDirsX with
+      | .ok (es, part) => decide (part.endDates = [3] ∧ part.span.start = 1 ∧ ∃ e ∈ es, e.account = exX)
+      | .error _ => false) = true := by decide +kernel
+  split at h
+  · rename_i es part he
+    simp only [decide_eq_true_eq] at h
+    exact ⟨es, part, he, h⟩
+  · cases h
+
+open Knut.Table (Cell) in
+example (es : List Entry) (part : Partition) (h : BalanceCmd.entries exFlagsX exDirsX = .ok (es, part))
+    (h1 : part.endDates = [3]) (h2 : part.span.start = 1) (h3 : ∃ e ∈ es, e.account = exX) :
+    ∃ pre post cells,
+      (BalanceReport.table (BalanceCmd.renderCfg exFlagsX part) es).rows =
+        pre ++ [Cell.text "X".toList .left 2 :: cells] ++ post ∧
+      ∃ (hk : 0 < cells.length), cellVal cells[0] = -(1/2) := by
+  obtain ⟨pre, post, cells, r1, r2, r3⟩ := C03_command_flow_cell_noclose_partial exFlagsX "CHF"
+    ⟨rfl, rfl, rfl, rfl, fun _ => rfl, fun _ => rfl, fun _ => rfl⟩ rfl exDirsX exDirsX_zero es part h exX
+    (by decide) (by decide) (by decide) h3
+  refine ⟨pre, post, cells, r1, ?_⟩
+  have hlen : cells.length = 1 := by rw [r2, h1]; rfl
+  have hk : 0 < part.endDates.length := by rw [h1]; decide
+  obtain ⟨fl, f1, f2⟩ := r3 0 hk (by omega)
+  have e0 : part.endDates[0] = 3 := by simp only [h1, List.getElem_cons_zero]
+  rw [e0, h2] at f1
+  have : Spec.flowAt "CHF" (Builder.ofList exDirsX).build exX (1 - 1) 3 = some (1/2) := by decide +kernel
+  rw [this] at f1
+  injection f1 with f1
+  exact ⟨by omega, by rw [f2, ← f1]⟩
 
 end Knut.C03
